@@ -36,6 +36,48 @@ Proof.
   rewrite p_hchip_after. unfold h2. cbn [hchip]. rewrite Hc. reflexivity.
 Qed.
 
+(* the same for the three other combinations: failed write / failed read, followed by a read / a write.
+   `fresh h1` is what begin_call leaves of h1: journal, call counter and fault plan cleared. *)
+Definition fresh (h1 : hstate) : hstate :=
+  mk_hstate (hchip h1) [] 0 [] (cs_low h1) (win h1) (strap h1) (stray h1).
+
+Lemma fresh_quiet : forall h1, cs_low h1 = false -> win h1 = WIdle -> quiet (fresh h1).
+Proof. intros h1 C W. unfold quiet, fresh; cbn [faults cs_low win]. auto. Qed.
+
+Theorem c20_next_read_after_write_fault : forall a v h a' n, faults h = [ncalls h + 1] -> cs_low h = false -> a' < 128 ->
+  let h2 := fresh (snd (spi_write a v h)) in
+  fst (spi_read a' n h2) = inr (fst (chip_read a' n (hchip h)))
+  /\ hchip (snd (spi_read a' n h2)) = snd (chip_read a' n (hchip h)).
+Proof.
+  intros a v h a' n F C Ha h2.
+  destruct (spi_write_transfer_fault a v h F C) as [_ [C1 [W1 [Hc _]]]].
+  rewrite (spi_read_quiet a' n h2 (fresh_quiet _ C1 W1) Ha). cbn [fst snd].
+  rewrite p_hchip_after. unfold h2, fresh. cbn [hchip]. rewrite Hc. split; reflexivity.
+Qed.
+
+Theorem c20_next_write_after_read_fault : forall a n h k a' v', faults h = [k] -> cs_low h = false ->
+  (k = ncalls h + 1 \/ k = ncalls h + 2) -> a' < 128 ->
+  let h2 := fresh (snd (spi_read a n h)) in
+  fst (spi_write a' v' h2) = None /\ hchip (snd (spi_write a' v' h2)) = chip_write a' v' (hchip h).
+Proof.
+  intros a n h k a' v' F C K Ha h2.
+  destruct (spi_read_transfer_fault a n h k F C K) as [_ [C1 [W1 [Hc _]]]].
+  rewrite (spi_write_quiet a' v' h2 (fresh_quiet _ C1 W1) Ha). cbn [fst snd]. split; [reflexivity|].
+  rewrite p_hchip_after. unfold h2, fresh. cbn [hchip]. rewrite Hc. reflexivity.
+Qed.
+
+Theorem c20_next_read_after_read_fault : forall a n h k a' n', faults h = [k] -> cs_low h = false ->
+  (k = ncalls h + 1 \/ k = ncalls h + 2) -> a' < 128 ->
+  let h2 := fresh (snd (spi_read a n h)) in
+  fst (spi_read a' n' h2) = inr (fst (chip_read a' n' (hchip h)))
+  /\ hchip (snd (spi_read a' n' h2)) = snd (chip_read a' n' (hchip h)).
+Proof.
+  intros a n h k a' n' F C K Ha h2.
+  destruct (spi_read_transfer_fault a n h k F C K) as [_ [C1 [W1 [Hc _]]]].
+  rewrite (spi_read_quiet a' n' h2 (fresh_quiet _ C1 W1) Ha). cbn [fst snd].
+  rewrite p_hchip_after. unfold h2, fresh. cbn [hchip]. rewrite Hc. split; reflexivity.
+Qed.
+
 (* contrast: without the release the line would stay low; the model of the code does release it *)
 Example c20_example : let h := mk_hstate (power_on (fun _ => 0) [] [] []) [] 0 [1] false WIdle 20 0 in
   cs_low (snd (spi_write 25 2 h)) = false /\ raw (snd (spi_write 25 2 h)) = [HSetLow; HSpiWrite [25; 2]; HSetHigh].
